@@ -489,6 +489,30 @@ func c05Spaces(c *fw.Ctx) {
 			}
 		})
 
+	c.Space("apl-host-bits", "APL items whose address has bits set beyond the prefix length (an IPNet with host bits: 10.1.0.0/8, 10.128.0.0/1, 2001:db8::1/32 — RFC 3123 does not forbid them on the wire and Unpack accepts them), alone and behind a canonical item: the text printed for the unpacked record is read back to the same RDATA; non-trivial: all", true,
+		func(emit func(func(*fw.R))) {
+			items := []wire.AplItem{
+				{Family: 1, Prefix: 8, Addr: []byte{10, 1}},
+				{Family: 1, Prefix: 1, Addr: []byte{0xc0}},
+				{Family: 1, Prefix: 31, Addr: []byte{10, 0, 0, 1}},
+				{Family: 2, Prefix: 32, Neg: true, Addr: []byte{0x20, 1, 0x0d, 0xb8, 0, 0, 0, 0, 0, 0, 0, 0, 0, 0, 0, 1}},
+			}
+			canon := wire.AplItem{Family: 1, Prefix: 24, Addr: []byte{192, 0, 2}}
+			for _, it := range items {
+				for _, front := range []bool{false, true} {
+					it, front := it, front
+					emit(func(r *fw.R) {
+						r.Nontrivial()
+						its := []wire.AplItem{it}
+						if front {
+							its = []wire.AplItem{canon, it}
+						}
+						ar := &wire.RR{Name: enum.Names[0], Type: 42, Class: 1, TTL: 5, Vals: []wire.Val{{Apl: its}}}
+						c05RR(r, ar, "APL-host-bits")
+					})
+				}
+			}
+		})
 	c.Space("generic-form-reused", "for every registered type with a presentation format: one RFC3597 value receives ToRFC3597 of the type's default record, then of the next type's default record, then of an RDATA-less record (RFC 2136 form, class ANY) — after each step its String() is what a fresh RFC3597 value prints for the same record, and that text parses to a record with the same type, class and RDATA; non-trivial: all", true,
 		func(emit func(func(*fw.R))) {
 			types := regTypes()
